@@ -150,3 +150,30 @@ def describe(relpath, qualname):
         'sha256': hashlib.sha256(seg.encode()).hexdigest(),
         'ast_sha256': hashlib.sha256(strip_docstrings(fn).encode()).hexdigest(),
     }
+
+
+def skeleton_hash(relpath):
+    """what attribute / name resolution in a module depends on besides the bodies of the functions a unit interprets: classes, their
+    bases, method names with decorators and parameter names, class-level and module-level assignment targets, imports"""
+    m = module(relpath)
+    items = []
+
+    def sig(fn):
+        return (fn.name, tuple(ast.unparse(d) for d in fn.decorator_list), tuple(a.arg for a in fn.args.args + fn.args.kwonlyargs),
+                fn.args.vararg.arg if fn.args.vararg else None, fn.args.kwarg.arg if fn.args.kwarg else None)
+    for st in m.tree.body:
+        if isinstance(st, ast.ClassDef):
+            body = []
+            for b in st.body:
+                if isinstance(b, ast.FunctionDef):
+                    body.append(('def',) + sig(b))
+                elif isinstance(b, ast.Assign):
+                    body.append(('assign', tuple(ast.unparse(t) for t in b.targets)))
+            items.append(('class', st.name, tuple(ast.unparse(b) for b in st.bases), tuple(ast.unparse(d) for d in st.decorator_list), tuple(body)))
+        elif isinstance(st, ast.FunctionDef):
+            items.append(('def',) + sig(st))
+        elif isinstance(st, ast.Assign):
+            items.append(('assign', tuple(ast.unparse(t) for t in st.targets)))
+        elif isinstance(st, (ast.Import, ast.ImportFrom)):
+            items.append(('import', ast.unparse(st)))
+    return hashlib.sha256(repr(items).encode()).hexdigest()
